@@ -8,6 +8,10 @@
 (*   imports -- the import statements in textual order, each the relative  *)
 (*              dotted name split at the dots (<<"d","g">> is `import d.g`)*)
 (*   rules   -- names of the rules the file defines                        *)
+(*   body    -- per rule (parallel to rules): "common" (has attributes),   *)
+(*              "match" (a string match), "alias" (the body is a single    *)
+(*              rule reference `A: B;`), "probe" (the harness's carrier)   *)
+(*   alias   -- for the alias rules: [name, target]                        *)
 (*   refs    -- unqualified rule names the file references                 *)
 (*   qrefs   -- qualified references [ns, name, form]; ns is a path,       *)
 (*              form "rule" is `x=ns.Name`, form "obj" is `x=[ns.Name]`    *)
@@ -16,6 +20,11 @@
 (* a reference is searched in the current file and then in the imported    *)
 (* files in the order of the import; a fully qualified name overrides the  *)
 (* search; every class carries the import path of its file (_tx_fqn).      *)
+(* The reference in the body of an alias rule is searched like any other,  *)
+(* from the file that contains the rule: the kind of the rule (match if    *)
+(* the target is a match rule, else abstract with the target as its only   *)
+(* subclass) is a function of its own file's resolution, whoever imports   *)
+(* the file.                                                               *)
 (*                                                                         *)
 (* The loader is a state machine: a depth-first traversal of the import    *)
 (* statements with a stack, every file entered once.  With Dev = {} the    *)
@@ -37,11 +46,12 @@ VARIABLES
   loads,   \* [file -> number of times the file was parsed]
   res,     \* Seq of <<file, name, target file>>   unqualified references linked
   qres,    \* Seq of <<file, qref index, target file>>
+  ares,    \* Seq of <<file, alias index, target file>>   bodies of alias rules linked
   phase,   \* "load" | "link" | "ready" | "failed"
   err,     \* "-" | "unresolved" | "syntax"
   steps
 
-vars == <<fs, stack, order, fin, defd, loads, res, qres, phase, err, steps>>
+vars == <<fs, stack, order, fin, defd, loads, res, qres, ares, phase, err, steps>>
 
 ----------------------------------------------------------------------------
 \* static structure of a case F
@@ -50,6 +60,9 @@ Range(s) == {s[k] : k \in DOMAIN s}
 Dir(p) == SubSeq(p, 1, Len(p) - 1)
 RECURSIVE Dotted(_)
 Dotted(p) == IF Len(p) = 0 THEN "" ELSE IF Len(p) = 1 THEN p[1] ELSE p[1] \o "." \o Dotted(Tail(p))
+
+RECURSIVE Joined(_, _)
+Joined(p, sep) == IF Len(p) = 0 THEN "" ELSE IF Len(p) = 1 THEN p[1] ELSE p[1] \o sep \o Joined(Tail(p), sep)
 
 Ns(F, i) == Dotted(F[i].path)                     \* namespace = import path of the file
 Fqn(F, i, n) == Ns(F, i) \o "." \o n              \* _tx_fqn of the class of rule n of file i
@@ -71,6 +84,19 @@ ResolveIn(F, D, i, n) == IF n \in D[i] THEN i ELSE FirstDef(D, ImpT(F, i), 1, n)
 
 \* Resolve(file, name) of the documentation: D = the complete files
 Resolve(F, i, n) == ResolveIn(F, Rules(F), i, n)
+
+\* bodies
+BodyOf(F, i, n) == F[i].body[CHOOSE k \in 1..Len(F[i].rules) : F[i].rules[k] = n]
+AliasIdx(F, i, n) == LET K == {k \in 1..Len(F[i].alias) : F[i].alias[k].name = n}
+                     IN IF K = {} THEN 0 ELSE CHOOSE k \in K : TRUE
+\* the rule whose body is matched when rule n of file i is referenced (documented)
+ConcreteDoc(F, i, n) == IF BodyOf(F, i, n) # "alias" THEN <<i, n>>
+                        ELSE LET t == F[i].alias[AliasIdx(F, i, n)].target IN <<Resolve(F, i, t), t>>
+KindOfBody(b) == IF b = "match" THEN "match" ELSE "common"
+\* the kind of rule n of file i: decided inside file i
+KindDoc(F, i, n) == IF BodyOf(F, i, n) # "alias" THEN KindOfBody(BodyOf(F, i, n))
+                    ELSE LET c == ConcreteDoc(F, i, n) IN
+                         IF c[1] = 0 THEN "?" ELSE IF BodyOf(F, c[1], c[2]) = "match" THEN "match" ELSE "abstract"
 
 \* a qualified name selects the rule of the named (loaded) file
 QResolveIn(F, D, L, q, n) == LET j == FileAt(F, q)
@@ -117,13 +143,14 @@ Rejected(i) ==
 LinksOf(D, L, i) == [k \in 1..Len(fs[i].refs) |-> <<i, fs[i].refs[k], ResolveIn(fs, D, i, fs[i].refs[k])>>]
 QLinksOf(D, L, i) == [k \in 1..Len(fs[i].qrefs) |->
                         <<i, k, QResolveIn(fs, D, L, fs[i].qrefs[k].ns, fs[i].qrefs[k].name)>>]
+ALinksOf(D, i) == [k \in 1..Len(fs[i].alias) |-> <<i, k, ResolveIn(fs, D, i, fs[i].alias[k].target)>>]
 Dangling(ls) == \E k \in 1..Len(ls) : ls[k][3] = 0
 
 RECURSIVE Flat(_)
 Flat(ss) == IF Len(ss) = 0 THEN <<>> ELSE Head(ss) \o Flat(Tail(ss))
 
 Fail(e) == /\ phase' = "failed" /\ err' = e
-           /\ UNCHANGED <<stack, order, fin, defd, loads, res, qres>>
+           /\ UNCHANGED <<stack, order, fin, defd, loads, res, qres, ares>>
 
 InitFor(F) ==
   /\ fs = F
@@ -131,7 +158,7 @@ InitFor(F) ==
   /\ order = <<1>> /\ fin = <<>>
   /\ defd = [i \in 1..Len(F) |-> {}]
   /\ loads = [i \in 1..Len(F) |-> IF i = 1 THEN 1 ELSE 0]
-  /\ res = <<>> /\ qres = <<>>
+  /\ res = <<>> /\ qres = <<>> /\ ares = <<>>
   /\ phase = "load" /\ err = "-" /\ steps = 0
 
 \* one step of loading: the next import statement of the file on top, or its end
@@ -146,25 +173,27 @@ Load ==
           ELSE IF g \in Range(order) /\ "ReloadOnImport" \notin Dev
           THEN \* already entered (possibly still being loaded: a cycle): nothing is loaded again
                /\ stack' = adv
-               /\ UNCHANGED <<order, fin, defd, loads, res, qres, phase, err>>
+               /\ UNCHANGED <<order, fin, defd, loads, res, qres, ares, phase, err>>
           ELSE /\ stack' = Append(adv, [f |-> g, k |-> 1])
                /\ order' = Append(order, g)
                /\ loads' = [loads EXCEPT ![g] = @ + 1]
-               /\ UNCHANGED <<fin, defd, res, qres, phase, err>>
+               /\ UNCHANGED <<fin, defd, res, qres, ares, phase, err>>
      ELSE \* the rules of the file become defined; the file is finished
        LET D == [defd EXCEPT ![i] = Range(fs[i].rules)]
            ls == LinksOf(D, Range(order), i)
            qs == QLinksOf(D, Range(order), i)
+           al == ALinksOf(D, i)
            rest == SubSeq(stack, 1, Len(stack) - 1)
        IN /\ defd' = D /\ fin' = Append(fin, i) /\ UNCHANGED <<order, loads>>
           /\ IF "ResolveWhenFileEnds" \in Dev
              THEN \* implementation: a file is linked as soon as it ends, seeing only
                   \* what is defined by then (a file that is still being loaded is empty)
-                  IF Dangling(ls) \/ Dangling(qs)
-                  THEN /\ phase' = "failed" /\ err' = "unresolved" /\ UNCHANGED <<stack, res, qres>>
-                  ELSE /\ res' = res \o ls /\ qres' = qres \o qs /\ stack' = rest /\ err' = err
+                  IF Dangling(ls) \/ Dangling(qs) \/ Dangling(al)
+                  THEN /\ phase' = "failed" /\ err' = "unresolved" /\ UNCHANGED <<stack, res, qres, ares>>
+                  ELSE /\ res' = res \o ls /\ qres' = qres \o qs /\ ares' = ares \o al
+                       /\ stack' = rest /\ err' = err
                        /\ phase' = IF Len(rest) = 0 THEN "ready" ELSE "load"
-             ELSE /\ stack' = rest /\ UNCHANGED <<res, qres, err>>
+             ELSE /\ stack' = rest /\ UNCHANGED <<res, qres, ares, err>>
                   /\ phase' = IF Len(rest) = 0 THEN "link" ELSE "load"
 
 \* documented: references are linked against the complete files
@@ -173,9 +202,10 @@ Link ==
   /\ LET L  == Range(order)
          ls == Flat([k \in 1..Len(order) |-> LinksOf(defd, L, order[k])])
          qs == Flat([k \in 1..Len(order) |-> QLinksOf(defd, L, order[k])])
-     IN IF Dangling(ls) \/ Dangling(qs)
-        THEN /\ phase' = "failed" /\ err' = "unresolved" /\ UNCHANGED <<res, qres>>
-        ELSE /\ phase' = "ready" /\ res' = ls /\ qres' = qs /\ err' = err
+         al == Flat([k \in 1..Len(order) |-> ALinksOf(defd, order[k])])
+     IN IF Dangling(ls) \/ Dangling(qs) \/ Dangling(al)
+        THEN /\ phase' = "failed" /\ err' = "unresolved" /\ UNCHANGED <<res, qres, ares>>
+        ELSE /\ phase' = "ready" /\ res' = ls /\ qres' = qs /\ ares' = al /\ err' = err
   /\ UNCHANGED <<stack, order, fin, defd, loads>>
 
 Final == phase \in {"ready", "failed"}
@@ -191,23 +221,47 @@ RECURSIVE Chain(_)
 Chain(i) == IF fs[i].parent = 0 THEN Fqn(fs, i, fs[i].rules[1])
             ELSE Chain(fs[i].parent) \o ">" \o Fqn(fs, i, fs[i].rules[1])
 NsSeq(s) == [k \in 1..Len(s) |-> Ns(fs, s[k])]
+
+\* as linked by the loader: the rule matched when rule n of file i is referenced
+ConcreteNow(i, n) ==
+  IF BodyOf(fs, i, n) # "alias" THEN <<i, n>>
+  ELSE LET a == AliasIdx(fs, i, n)
+           K == {k \in 1..Len(ares) : ares[k][1] = i /\ ares[k][2] = a}
+       IN IF K = {} THEN <<0, n>> ELSE <<ares[CHOOSE k \in K : TRUE][3], fs[i].alias[a].target>>
+KindNow(i, n) == IF BodyOf(fs, i, n) # "alias" THEN KindOfBody(BodyOf(fs, i, n))
+                 ELSE LET c == ConcreteNow(i, n) IN
+                      IF c[1] = 0 THEN "?" ELSE IF BodyOf(fs, c[1], c[2]) = "match" THEN "match" ELSE "abstract"
+InhNow(i, n) == IF KindNow(i, n) = "abstract" THEN LET c == ConcreteNow(i, n) IN Fqn(fs, c[1], c[2]) ELSE ""
+\* the text a rule matches starts with this keyword (the harness renders it so)
+Kw(j, n) == IF BodyOf(fs, j, n) = "probe" THEN "%" \o n ELSE "%" \o n \o "_in_" \o Joined(fs[j].path, "_")
+\* a model that reaches, through the probe rules, a reference in file i that is linked to rule n
+\* of file j: the classes of its objects, and the keyword that had to be written
+Parsed(i, j, n) ==
+  LET c == ConcreteNow(j, n) IN
+  IF c[1] = 0 THEN "?"
+  ELSE Chain(i) \o (IF BodyOf(fs, c[1], c[2]) = "match" THEN "" ELSE ">" \o Fqn(fs, c[1], c[2]))
+       \o "@" \o Kw(c[1], c[2])
+
 ClassesOf(i) == [k \in 1..Len(fs[i].rules) |->
-                   <<Ns(fs, i), fs[i].rules[k], Fqn(fs, i, fs[i].rules[k]), ToString(loads[i])>>]
+                   LET n == fs[i].rules[k] IN
+                   <<Ns(fs, i), n, Fqn(fs, i, n), ToString(loads[i]), KindNow(i, n), InhNow(i, n)>>]
 Outcome ==
   IF phase = "failed"
   THEN [status |-> "failed", err |-> err, loaded |-> <<>>, classes |-> <<>>, res |-> <<>>, qres |-> <<>>,
         main |-> <<>>]
   ELSE [status |-> "ready", err |-> "-",
         loaded  |-> NsSeq(order),
+        \* per class: namespace, name, _tx_fqn, number of class objects, rule kind, subclasses
         classes |-> Flat([k \in 1..Len(order) |-> ClassesOf(order[k])]),
-        \* per reference: file, name, class it is linked to, and the classes of the objects a
-        \* model reaching the reference through the probe rules consists of
+        \* per reference: file, name, class it is linked to, and what a model reaching the
+        \* reference through the probe rules consists of
         res     |-> [k \in 1..Len(res) |-> <<Ns(fs, res[k][1]), res[k][2], Fqn(fs, res[k][3], res[k][2]),
-                                              Chain(res[k][1]) \o ">" \o Fqn(fs, res[k][3], res[k][2])>>],
+                                              Parsed(res[k][1], res[k][3], res[k][2])>>],
         qres    |-> [k \in 1..Len(qres) |->
                        LET r == fs[qres[k][1]].qrefs[qres[k][2]]
                        IN <<Ns(fs, qres[k][1]), Dotted(r.ns) \o "." \o r.name, r.form,
-                            Fqn(fs, qres[k][3], r.name)>>],
+                            Fqn(fs, qres[k][3], r.name),
+                            IF r.form = "rule" THEN Parsed(qres[k][1], qres[k][3], r.name) ELSE "">>],
         \* metamodel[name] after the load looks names up from the main grammar
         main    |-> LET ns == fs[1].probe IN
                     [k \in 1..Len(ns) |->
@@ -245,6 +299,9 @@ ResolvedAsDocumented ==
     /\ \A k \in 1..Len(qres) :
          LET r == fs[qres[k][1]].qrefs[qres[k][2]]
          IN fs[qres[k][3]].path = r.ns /\ r.name \in Rules(fs)[qres[k][3]]
+    /\ \A k \in 1..Len(ares) : IsDocTarget(fs, ares[k][1], fs[ares[k][1]].alias[ares[k][2]].target, ares[k][3])
+    /\ \A i \in Reach(fs) : \A a \in 1..Len(fs[i].alias) :
+         Cardinality({k \in 1..Len(ares) : ares[k][1] = i /\ ares[k][2] = a}) = 1
     \* deterministic and total: every reference of every loaded file is linked exactly once
     /\ \A i \in Reach(fs) : \A n \in Range(fs[i].refs) :
          Cardinality({k \in 1..Len(res) : res[k][1] = i /\ res[k][2] = n}) = 1
@@ -258,6 +315,15 @@ FailsOnlyWhenDangling ==
     /\ \E i \in Reach(fs) :
          \/ \E n \in Range(fs[i].refs) : Resolve(fs, i, n) = 0
          \/ \E r \in Range(fs[i].qrefs) : QResolveIn(fs, Rules(fs), Reach(fs), r.ns, r.name) = 0
+         \/ \E a \in Range(fs[i].alias) : Resolve(fs, i, a.target) = 0
+
+\* the kind of a rule is a function of its own file's resolution: whatever the importing
+\* files define, an alias rule is a match rule iff its target, searched from its own file, is one
+KindIsLocal ==
+  phase = "ready" =>
+    \A i \in Reach(fs) : \A n \in Range(fs[i].rules) :
+       /\ KindNow(i, n) = KindDoc(fs, i, n)
+       /\ ConcreteNow(i, n) = ConcreteDoc(fs, i, n)
 
 \* class names are file based and identify the class
 FqnFileBased ==
